@@ -1346,6 +1346,22 @@ pub fn random_scen(r: &mut Rng, family: usize) -> Scen {
         worker_spins: 400,
       }
     }
+    26 => {
+      // buffer(notifier) has no _threads twin but its cells are MutArc: the same two-thread
+      // shape as the other two-input combinators (thread k drives input k)
+      let mut threads: Vec<Vec<TOp>> = vec![];
+      for t in 0..nt {
+        let k = t % 2;
+        let mut s: Vec<TOp> = (0..1 + r.below(3)).map(|_| TOp::Next(k)).collect();
+        match r.below(4) {
+          0 | 1 => s.push(TOp::Complete(k)),
+          2 => s.push(TOp::Error(k)),
+          _ => {}
+        }
+        threads.push(s);
+      }
+      Scen { name: "buffer[two threads]", kind: Kind::Pipe(two_input("buffer")), n_hot: 2, initial_subs: 1, threads, workers: 0, worker_spins: 0 }
+    }
     24 | 25 => {
       // more rate limiters whose timer tasks run on a worker thread
       let (name, op): (&'static str, Op) = if family == 24 {
@@ -1406,7 +1422,7 @@ pub fn random_scen(r: &mut Rng, family: usize) -> Scen {
   }
 }
 
-pub const FAMILIES: usize = 26;
+pub const FAMILIES: usize = 27;
 
 pub fn strategy_for(r: &mut Rng) -> Strategy {
   match r.below(4) {
@@ -2038,6 +2054,7 @@ pub fn two_input_name(s: &Scen) -> Option<&'static str> {
     "take_until_threads" => Some("take_until"),
     "skip_until_threads" => Some("skip_until"),
     "sample_threads" => Some("sample"),
+    "buffer[two threads]" => Some("buffer"),
     _ => None,
   }
 }
